@@ -594,6 +594,14 @@ class Interp:
                     # the bindings captured around a fill (inside a loop in the component body) form one
                     # layer, which is then forwarded as "the loop layer": its other names are not predicted
                     fw = {k: (v if k == "forloop" and isinstance(v, dict) else WILD) for k, v in layer.vars.items()}
+                    # several such layers can be stacked (the fill's own bindings and those that leak in while default
+                    # content is rendered through a sibling fill's default alias); which of them is "the loop layer" is
+                    # not specified: the names of all of them are unpredicted
+                    for other in env[:i_]:
+                        if other.kind in ("between", "aliaswild") and loopish(other):
+                            for k in other.vars:
+                                if k not in fw or k == "forloop":
+                                    fw[k] = WILD2 if k == "forloop" else WILD
                     tenv.append(Layer(fw, "forwarded"))
                     break
         else:
@@ -651,7 +659,8 @@ class Interp:
                     # the receiving instance's own layer is not part of this context (an `only` component in
                     # between cut it off): where the bindings around the fill rank is not specified
                     idx = len(fenv)
-                    between = Layer({k_: (v_ if k_ == "forloop" else WILD) for k_, v_ in between.vars.items()}, "between")
+                    # (that includes the loop state: the loop layer forwarded into the `only` component may sit above it)
+                    between = Layer({k_: (WILD2 if k_ == "forloop" else WILD) for k_, v_ in between.vars.items()}, "between")
                 fenv.insert(idx, between)
                 if inst.tag_only:
                     # django mode + `only`: whether fill content still sees the variables of the tag
